@@ -71,6 +71,9 @@ type c30Sorted struct {
 	elem  ast.Expr
 }
 
+// c30cur is the state of the current run, for the rules added in c30rN.go (they run after runC30).
+var c30cur *c30
+
 func runC30(r *Run) {
 	x := &c30{r: r, funcOf: map[*types.Func]*FuncInfo{}, sums: map[*types.Func]*c30Sum{}, busy: map[*types.Func]bool{},
 		defs: map[types.Object][]ast.Expr{}, defCount: map[types.Object]int{}, posStart: map[*types.Var]bool{}, implMemo: map[*types.Func][]*types.Func{}}
@@ -101,6 +104,7 @@ func runC30(r *Run) {
 		}
 	}
 	r.Anchor("R-1", "ast.Position with byte-offset fields", len(x.posStart) == 2)
+	c30cur = x
 	x.ruleR1()
 	x.ruleR2()
 	x.ruleR3()
